@@ -471,6 +471,12 @@ class StoreModel:
             else:
                 self.runs_per_memobj[id(o)] = self.runs_per_memobj.get(id(o), 0) + 1
         if failed is None and pending:
+            # (the same domain restriction as in current(): a run that was handed a handle - directory path, lazy reader -
+            #  to a stored result that another chain has deleted meanwhile fails before it can be observed)
+            for x in pending:
+                for io in mch.owner(x).read_inputs(x):
+                    if io.mem is not None and io.mt.kind in HANDLE_KINDS and self.loc(io) not in self.store:
+                        raise model.OutOfDomain('a stored result was deleted while another chain held a handle to it')
             raise Violation('expected-run-missing', dict(info, missing=[o.mt.fullname for o in pending],
                                                          ran=[e[0] for e in log]))
         if failed is not None and len(log) and log[-1][4] != failed.mt.slug:
